@@ -1,3 +1,8 @@
 import Gonnx.Core
 import Gonnx.Gate
 import Gonnx.Generated.Registry
+import Gonnx.Kernel
+import Gonnx.Broadcast
+import Gonnx.Ops.Binary
+import Gonnx.Spec.Broadcast
+import Gonnx.Spec.Binary
